@@ -5,6 +5,10 @@ From CV Require Import Chain.Pool Chain.PoolProofs Chain.Rebase.
 Import ListNotations.
 Open Scope N_scope.
 
+Section Dist.
+(** the supported distance: every statement holds for any value *)
+Context (md : nat).
+
 (** ** reorgPath: the length bound *)
 Lemma rewind_ok U maxlen nrev napp ix ix' :
   rewind U maxlen nrev napp ix = inr ix' → (nrev + napp ≤ maxlen)%nat.
@@ -189,10 +193,10 @@ Qed.
 
 (** ** C13: what a successful rebase returns *)
 Theorem rebase_ok_spec U gen txs from to out :
-  sane U → update_proofs U gen txs from to = ROk out →
+  sane U → update_proofs md U gen txs from to = ROk out →
   ∃ rev app,
-    reorg_path U gen max_rebase from to = inr (rev, app) ∧
-    (length rev + length app ≤ S max_rebase)%nat ∧
+    reorg_path U gen md from to = inr (rev, app) ∧
+    (length rev + length app ≤ S md)%nat ∧
     (∃ fb, U !! from.2 = Some fb ∧ b_st fb = true) ∧
     Forall (λ t, elements_valid t = true) txs ∧
     (∀ ix, ix ∈ rev → ∃ b pnum, block_and_parent U ix.2 = Some (b, pnum) ∧
@@ -206,7 +210,7 @@ Proof.
   destruct (U !! from.2) as [fb|] eqn:Ef; [|done].
   destruct (b_st fb) eqn:Est; [|done]. simpl in H.
   destruct (forallb elements_valid txs) eqn:Ev; [|done]. simpl in H.
-  destruct (reorg_path U gen max_rebase from to) as [e|[rev app]] eqn:Ep; [done|].
+  destruct (reorg_path U gen md from to) as [e|[rev app]] eqn:Ep; [done|].
   destruct (revert_all false U rev txs) as [txs'|e] eqn:Er; [|done].
   apply revert_all_spec in Er as [-> Hr].
   apply apply_all_spec in H as (->&Ha&Hk); [|done].
@@ -220,15 +224,15 @@ Qed.
 (** ** C13: errors *)
 Theorem rebase_errors U gen txs from to :
   ((U !! from.2 = None ∨ ∃ fb, U !! from.2 = Some fb ∧ b_st fb = false) →
-     update_proofs U gen txs from to = RErr EBasis) ∧
+     update_proofs md U gen txs from to = RErr EBasis) ∧
   ((∃ fb, U !! from.2 = Some fb ∧ b_st fb = true) → (∃ t, t ∈ txs ∧ elements_valid t = false) →
-     update_proofs U gen txs from to = RErr EProof) ∧
+     update_proofs md U gen txs from to = RErr EProof) ∧
   (∀ e, (∃ fb, U !! from.2 = Some fb ∧ b_st fb = true) → Forall (λ t, elements_valid t = true) txs →
-     reorg_path U gen max_rebase from to = inl e → update_proofs U gen txs from to = RErr e) ∧
-  (∀ out, update_proofs U gen txs from to = ROk out →
-     ∃ rev app, reorg_path U gen max_rebase from to = inr (rev, app) ∧
-                (length rev + length app ≤ S max_rebase)%nat) ∧
-  ((∃ l, update_proofs U gen txs from to = ROk l) ∨ (∃ e, update_proofs U gen txs from to = RErr e)).
+     reorg_path U gen md from to = inl e → update_proofs md U gen txs from to = RErr e) ∧
+  (∀ out, update_proofs md U gen txs from to = ROk out →
+     ∃ rev app, reorg_path U gen md from to = inr (rev, app) ∧
+                (length rev + length app ≤ S md)%nat) ∧
+  ((∃ l, update_proofs md U gen txs from to = ROk l) ∨ (∃ e, update_proofs md U gen txs from to = RErr e)).
 Proof.
   unfold update_proofs, update_proofs_gen. splits.
   - intros [->|(fb&->&->)]; done.
@@ -240,11 +244,11 @@ Proof.
     intros t Ht. rewrite Forall_forall in Hv. apply Hv. by apply elem_of_list_In.
   - intros out H. destruct (U !! from.2) as [fb|]; [|done]. destruct (b_st fb); [|done]. simpl in H.
     destruct (forallb elements_valid txs); [|done]. simpl in H.
-    destruct (reorg_path U gen max_rebase from to) as [e|[rev app]] eqn:Ep; [done|].
+    destruct (reorg_path U gen md from to) as [e|[rev app]] eqn:Ep; [done|].
     exists rev, app. split; [done|]. by eapply reorg_path_len.
   - destruct (U !! from.2) as [fb|]; [|right; eauto]. destruct (b_st fb); [|right; eauto]. simpl.
     destruct (forallb elements_valid txs); [|right; eauto]. simpl.
-    destruct (reorg_path U gen max_rebase from to) as [e|[rev app]]; [right; eauto|].
+    destruct (reorg_path U gen md from to) as [e|[rev app]]; [right; eauto|].
     destruct (revert_all false U rev txs) as [txs'|e]; [|right; eauto].
     destruct (apply_all false U app txs') as [l|e]; [left|right]; eauto.
 Qed.
@@ -256,11 +260,11 @@ Definition lin_blk (k : N) : N * blk :=
 Definition lin (n : nat) : universe := list_to_map (map (λ k, lin_blk (N.of_nat k)) (seq 0 (S n))).
 
 Example rebase_boundary :
-  update_proofs (lin 160) (0, 1) [] (2, 3) (146, 147) = ROk [] ∧
-  update_proofs (lin 160) (0, 1) [] (2, 3) (147, 148) = RErr ETooLong ∧
-  update_proofs (lin 160) (0, 1) [] (146, 147) (2, 3) = ROk [] ∧
-  update_proofs (lin 160) (0, 1) [] (147, 148) (2, 3) = RErr ETooLong ∧
-  update_proofs (lin 160) (0, 1) [] (2, 999) (5, 6) = RErr EBasis.
+  update_proofs max_rebase (lin 160) (0, 1) [] (2, 3) (146, 147) = ROk [] ∧
+  update_proofs max_rebase (lin 160) (0, 1) [] (2, 3) (147, 148) = RErr ETooLong ∧
+  update_proofs max_rebase (lin 160) (0, 1) [] (146, 147) (2, 3) = ROk [] ∧
+  update_proofs max_rebase (lin 160) (0, 1) [] (147, 148) (2, 3) = RErr ETooLong ∧
+  update_proofs max_rebase (lin 160) (0, 1) [] (2, 999) (5, 6) = RErr EBasis.
 Proof. vm_compute. done. Qed.
 
 (** ** F9 in the rebase: a [parent; child] set across one unrelated block *)
@@ -268,8 +272,8 @@ Definition exRU : universe :=
   list_to_map [(0, Blk 0 false true false [] [] 0); (1, Blk 0 true true true [] [(0, 0); (4, 1); (8, 2)] 3);
                (2, Blk 1 true true true [] [] 5)].
 Theorem rebase_prefix_refuted :
-  update_proofs_prefix exRU (0, 1) [tB; tC] (0, 1) (1, 2) = RErr EGone ∧
-  update_proofs exRU (0, 1) [tB; tC] (0, 1) (1, 2) = ROk [tB; tC].
+  update_proofs_prefix max_rebase exRU (0, 1) [tB; tC] (0, 1) (1, 2) = RErr EGone ∧
+  update_proofs max_rebase exRU (0, 1) [tB; tC] (0, 1) (1, 2) = ROk [tB; tC].
 Proof. vm_compute. done. Qed.
 
 Example ex_sane : sane exRU.
@@ -475,11 +479,11 @@ Qed.
 
 (** ** C13: the broadcastable set *)
 Theorem set_parents_first_and_basis_is_tip U gen L mw tip p basis t :
-  v2_transaction_set U gen L mw tip p basis t ≠ SPanic ∧
-  ∀ b l, v2_transaction_set U gen L mw tip p basis t = SOk b l →
+  v2_transaction_set md U gen L mw tip p basis t ≠ SPanic ∧
+  ∀ b l, v2_transaction_set md U gen L mw tip p basis t = SOk b l →
     b = tip ∧
     ∃ parents l',
-      l = parents ++ l' ∧ update_proofs U gen [t] basis tip = ROk l' ∧
+      l = parents ++ l' ∧ update_proofs md U gen [t] basis tip = ROk l' ∧
       sublist parents (v2_pool_transactions L mw p) ∧
       ∀ u, u ∈ parents ∨ u = t → ∀ i ix, i ∈ a_ins u → is_ref i = false →
         parent_map (v2_pool_transactions L mw p) !! i_el i = Some ix →
@@ -489,8 +493,8 @@ Proof.
   set (pl := v2txns (revalidate L mw p)).
   destruct (unconfirmed_parents_spec (parent_map pl) pl t (parent_map_ok pl)) as (ps&E&Hs&Hc).
   rewrite E. split.
-  - by destruct (update_proofs U gen [t] basis tip).
-  - intros b l H. destruct (update_proofs U gen [t] basis tip) as [l'|e] eqn:Eu; [|done].
+  - by destruct (update_proofs md U gen [t] basis tip).
+  - intros b l H. destruct (update_proofs md U gen [t] basis tip) as [l'|e] eqn:Eu; [|done].
     inversion H; subst. split; [done|]. exists ps, l'. splits; auto.
 Qed.
 
@@ -508,8 +512,8 @@ Proof. vm_compute. done. Qed.
 
 (** ** A child rebased alone: the creator of its ephemeral input need not be in the set *)
 Theorem rebase_child_alone U gen t from to out :
-  sane U → update_proofs U gen [t] from to = ROk out →
-  ∃ rev app, reorg_path U gen max_rebase from to = inr (rev, app) ∧
+  sane U → update_proofs md U gen [t] from to = ROk out →
+  ∃ rev app, reorg_path U gen md from to = inr (rev, app) ∧
     (a_id t ∈ confirmed_on U app → out = []) ∧
     (a_id t ∉ confirmed_on U app → out = [map_ins (conv_confirmed (created_on U app)) t]).
 Proof.
@@ -524,8 +528,9 @@ Definition exRU2 : universe :=
   list_to_map [(0, Blk 0 false true false [] [] 0); (1, Blk 0 true true true [] [(0, 0); (4, 1); (8, 2)] 3);
                (2, Blk 1 true true true [2] [(104, 3)] 5)].
 Example rebase_child_alone_ex :
-  update_proofs exRU2 (0, 1) [tC] (0, 1) (1, 2) =
+  update_proofs max_rebase exRU2 (0, 1) [tC] (0, 1) (1, 2) =
     ROk [ATx 3 true [AIn 104 RSpend 3 true 0] [108] 1 10 0 100 false] ∧
-  update_proofs exRU2 (0, 1) [tB; tC] (0, 1) (1, 2) =
+  update_proofs max_rebase exRU2 (0, 1) [tB; tC] (0, 1) (1, 2) =
     ROk [ATx 3 true [AIn 104 RSpend 3 true 0] [108] 1 10 0 100 false].
 Proof. vm_compute. done. Qed.
+End Dist.
